@@ -44,7 +44,7 @@ func goTyClass(s string) string {
 func checkC18(c *Check) {
 	L := c.L
 	c.Expl = "Structural clauses of 'foreign C functions see the published value representation', deciding agreement between the Go generator and the C headers/sources parsed by clang: struct layouts (field order and class) of ddpstring, the list structs, ddpgenericlist, ddpany and the vtable, plus the field-index constants (R18.1); every runtime function the generator declares exists in C with equal arity, position-wise kinds and equal return class (R18.2); every extern declaration of the Duden library maps, by the stated convention, to the C definition of the same name (R18.3); the convention code itself: primitives by value, non-primitives by pointer, non-primitive results through a leading out-pointer, extern names unmangled (R18.4/R18.6); the caller frees each non-Referenz argument of an extern callee once, indexed consistently with the out-pointer shift (R18.5); the small-Variable threshold agrees between generator and header (R18.7). Not decided: user extensions, values seen by callees."
-	P, err := LoadC(repoDir(), true)
+	P, err := LoadC(repoDirC(), true)
 	if err != nil {
 		c.Rule("R18.0", "C sources parse", 1).Und("lib/runtime", token.NoPos, err.Error())
 		return
@@ -525,7 +525,7 @@ func parseDDPType(t string) (class string, ref bool) {
 
 func checkDudenExterns(c *Check, P *CProgram) {
 	r := c.Rule("R18.3", "extern declarations of the Duden library match the C definition of the same name under the published convention", 80)
-	dir := filepath.Join(repoDir(), "lib", "stdlib", "Duden")
+	dir := filepath.Join(repoDirC(), "lib", "stdlib", "Duden")
 	loadDDPTypeDefs(dir)
 	files, _ := filepath.Glob(filepath.Join(dir, "*.ddp"))
 	sort.Strings(files)
@@ -546,7 +546,7 @@ func checkDudenExterns(c *Check, P *CProgram) {
 			ret := seg.text[m[6]:m[7]]
 			defIn := seg.text[m[8]:m[9]]
 			line := seg.line
-			rel, _ := filepath.Rel(repoDir(), f)
+			rel, _ := filepath.Rel(repoDirC(), f)
 			pos := fmt.Sprintf("%s:%d", rel, line)
 			_ = src
 			// parameters: "mit dem Parameter a vom Typ T" / "mit den Parametern a, b und c vom Typ T1, T2 und T3" / no parameters
